@@ -65,13 +65,16 @@ ExpKind(x) == IF IsDirEnt(x) THEN "dir" ELSE IF x.type = "symlink" THEN "link"
               ELSE IF x.type = "ghost" THEN "ghost" ELSE "file"
 
 InPayload(f, x) == IF f = "rpm" THEN x.type # "implicit dir" ELSE x.type # "ghost"
+\* an rpm never lists the root directory itself (the rpm library drops an entry named "/": rpm does not allow one);
+\* the tar-based formats write it as "./"
+InPayloadK(f, m, k) == InPayload(f, m[k]) /\ ~(f = "rpm" /\ KeyPath(k) = <<>>)
 
 (* ---- C01: payload fidelity ---------------------------------------------- *)
 PayloadClauses(f, c, tree, m, evs) ==
   LET P == Idx(evs, LAMBDA e : IsPayloadEv(f, e))
       obs == { ObsRec(f, evs[i]) : i \in P }
       opaths == { o.path : o \in obs }
-      K == { k \in DOMAIN m : InPayload(f, m[k]) }
+      K == { k \in DOMAIN m : InPayloadK(f, m, k) }
       epaths == { KeyPath(k) : k \in K }
       keyOf(p) == CHOOSE k \in K : KeyPath(k) = p
       common == { o \in obs : o.path \in epaths }
@@ -106,8 +109,8 @@ ForeignLeak(f, c, tree, m, evs) ==
   LET hasForeign == \E i \in 1..Len(c.entries) : c.entries[i].tag \notin {"", f}
       cAll == [c EXCEPT !.entries = [i \in 1..Len(c.entries) |-> [c.entries[i] EXCEPT !.tag = ""]]]
       pAll == PlanFor(cAll, tree, f)
-      own == { KeyPath(k) : k \in { x \in DOMAIN m : InPayload(f, m[x]) } }
-      all == { KeyPath(k) : k \in { x \in DOMAIN pAll[2] : InPayload(f, pAll[2][x]) } }
+      own == { KeyPath(k) : k \in { x \in DOMAIN m : InPayloadK(f, m, x) } }
+      all == { KeyPath(k) : k \in { x \in DOMAIN pAll[2] : InPayloadK(f, pAll[2], x) } }
   IN hasForeign /\ pAll[1] = "ok" /\ (ObsPaths(f, evs) \cap (all \ own)) # {}
 
 (* ---- C04: structure ------------------------------------------------------ *)
